@@ -45,7 +45,9 @@ func CreateEmsgAhead(segStart, segEnd, timescale uint64, perMinute int) (*mp4.Em
 	case 3:
 		spliceInsertTimes = []uint64{minuteStart + 10*timescale, minuteStart + 36*timescale, minuteStart + 46*timescale}
 	}
-	// We do not need to look into next minute, since first start is 10s after full minute.
+	// The first splice of the next minute is announced 3s after the full minute, so a segment
+	// that starts in this minute may contain that announce time.
+	spliceInsertTimes = append(spliceInsertTimes, minuteStart+70*timescale)
 	inInterval := false
 	var spliceTime uint64
 	for _, sit := range spliceInsertTimes {
